@@ -1,6 +1,7 @@
 """C08 — template compilation preserves behaviour (decode, encode, save/load)."""
 import json
 import os
+import sys
 
 import lib
 import bufrlib as B
@@ -334,6 +335,9 @@ def run(ctx):
                 ctx.violation(dict(kind='C08-cache-history', case={'ids': c['ids'], 'seed': c['seed'], 'forced': c['forced'],
                                                                    'nsub': c['nsub'], 'cache_max': k}, **flags_of(c['ids'], c.get('version', 33))),
                               'decode through a shared compiled-template cache (max %d) differs from a fresh decode' % k)
+    # the SAME descriptor list under different table groups (master version, local tables, originating centre) through
+    # ONE coder object: a compiled template is only valid for the table group it was compiled with
+    table_group_families(ctx, rng)
     ctx.partial = ['compile_exec is proved for every template satisfying the executable side condition ok_c08 (CompileChk.v), '
                    'for all primitive families, with the same error on failure (C08_compile_exec_equiv and the four coder '
                    'corollaries); outside ok_c08 the statement is false of the model and of the implementation: D14, D5, D19 and '
@@ -342,8 +346,70 @@ def run(ctx):
     ctx.assumptions = ['cache transparency at model level is C13\'s ct_get_pure; here the implementation cache is exercised by histories']
 
 
+def table_group_families(ctx, rng):
+    import json
+    sys.path.insert(0, os.path.dirname(os.path.abspath(__file__)))
+    import c13_obs as O
+    from pybufrkit.decoder import Decoder
+    from pybufrkit.encoder import Encoder
+    from pybufrkit.renderer import FlatJsonRenderer
+    fams = []
+    for ids in ([1001, 14001, 12001], [1103, 12001], [15009, 2007, 1001], [22039, 12001]):
+        fams.append(('master-version', [(ids, dict(mtv=v)) for v in (13, 33, 19)]))
+    for ids in ([1001, 8201, 1002, 12101], [1211, 2201, 12001], [1001, 1211, 12101], [1001, 33194, 33195, 12001], [5234, 5236, 1001]):
+        fams.append(('local-tables', [(ids, dict(mtv=25, centre=98, ltv=l)) for l in (1, 2, 3, 101, 0)]))
+    for ids in ([1001, 1192, 12001], [8201, 12101]):
+        fams.append(('centre', [(ids, dict(mtv=13, centre=c, ltv=l)) for c in (98, 7, 0) for l in (1, 2)]))
+
+    def dec_obs(dec, b):
+        try:
+            m = dec.process(b, wire_template_data=False)
+            td = m.template_data.value
+            return ('ok', repr(td.decoded_values_all_subsets), [[str(x) for x in ds] for ds in td.decoded_descriptors_all_subsets]), m
+        except Exception as ex:
+            return ('err', lib.err_code(ex)), None
+
+    def enc_obs(enc, m):
+        try:
+            return ('ok', enc.process(json.dumps(FlatJsonRenderer().render(m)), wire_template_data=False).serialized_bytes.hex())
+        except Exception as ex:
+            return ('err', lib.err_code(ex))
+
+    for what, members in fams:
+        msgs = [(ids, kw, O.mk_message(ids, 64, pattern=True, **kw)) for ids, kw in members]
+        fresh = [dec_obs(Decoder(), b) for _, _, b in msgs]
+        fresh_enc = [enc_obs(Encoder(), m) if m is not None else None for _, m in fresh]
+        for k in ((1, 5) if ctx.quick else (1, 2, 5)):
+            dec, enc = Decoder(compiled_template_cache_max=k), Encoder(compiled_template_cache_max=k)
+            order = list(range(len(msgs))) * 2
+            rng.shuffle(order)
+            for j in order:
+                ids, kw, b = msgs[j]
+                got, _ = dec_obs(dec, b)
+                ctx.count(('tg-family', what, tuple(ids), k, j), True)
+                ctx.dist['table-group-family-' + what] += 1
+                case = {'ids': ids, 'message': kw, 'cache_max': k, 'order': order, 'bytes': b.hex()}
+                if got != fresh[j][0]:
+                    ctx.violation(dict(kind='C08-compiled-template-across-table-groups', case=case, got=str(got)[:300],
+                                       interpreted=str(fresh[j][0])[:300]),
+                                  'ids %s %s: decode through a coder with a compiled-template cache (max %d) that has seen the same '
+                                  'descriptor list under another table group differs from the decode without compilation' % (ids, kw, k))
+                if fresh[j][1] is not None:
+                    ge = enc_obs(enc, fresh[j][1])
+                    if ge != fresh_enc[j]:
+                        ctx.violation(dict(kind='C08-compiled-template-across-table-groups-encode', case=case, got=str(ge)[:300],
+                                           interpreted=str(fresh_enc[j])[:300]),
+                                      'ids %s %s: encode through a coder with a compiled-template cache (max %d) that has seen the '
+                                      'same descriptor list under another table group differs from the encode without compilation'
+                                      % (ids, kw, k))
+
+
 def replay(ctx, rec):
     c = rec['case']
+    if str(rec.get('kind', '')).startswith('C08-compiled-template-across-table-groups'):
+        import random
+        table_group_families(ctx, random.Random(0))       # the whole (small, deterministic up to order) family run
+        return {'violations': len(ctx.violations)}
     cases = [{'ids': c['ids'], 'version': c.get('version', 33), 'edition': c.get('edition', 4), 'nsub': c['nsub'],
               'compressed': c.get('compressed', False), 'forced': c['forced'], 'seed': c['seed'], 'maxrep': 3,
               'features': {}, 'shared': c.get('compressed', False)}]
